@@ -369,6 +369,51 @@ def replay_reserved_prefix(ctx, ob):
             return {"confirmed": True, "input": v, "observed": f"{type(e).__name__}: {e}"[:200]}
 
 
+def call_spellings(ctx: RunCtx) -> BoundedResult:
+    """Bounded stand-in: every way of writing one logical call (positional / keyword / defaults omitted or given, any keyword order) gives the same
+    arguments, the same call identity, and - under registration concurrency control - the same invocation."""
+    from pynenc.arguments import Arguments
+    from pynenc.call import Call
+    from . import verif_tasks as vt
+    from .realapp import real_app
+    res = BoundedResult("call_spellings", "3 task signatures (defaults, keyword-only, strings) x all spellings of 2 logical calls each: Arguments.from_call, call_id, and "
+                        "submission under registration_concurrency=ARGUMENTS on both backends")
+    spellings = {
+        vt.sp_f: [[((1,), {}), ((), {"a": 1}), ((1, 0), {}), ((1,), {"b": 0}), ((), {"a": 1, "b": 0}), ((), {"b": 0, "a": 1})],
+                  [((2, 5), {}), ((2,), {"b": 5}), ((), {"b": 5, "a": 2})]],
+        vt.sp_g: [[((1,), {}), ((), {"a": 1}), ((1, 0), {"c": 1}), ((), {"c": 1, "a": 1}), ((1,), {"b": 0, "c": 1})],
+                  [((1, 2), {"c": 3}), ((), {"a": 1, "b": 2, "c": 3}), ((1,), {"c": 3, "b": 2})]],
+        vt.sp_h: [[(("p",), {}), ((), {"x": "p"}), (("p", "d"), {}), ((), {"y": "d", "x": "p"})],
+                  [(("p", "q"), {}), ((), {"x": "p", "y": "q"})]],
+    }
+    n = 0
+    for func, groups in spellings.items():
+        for group in groups:
+            n += 1
+            kws = [Arguments.from_call(func, *a, **k).kwargs for a, k in group]
+            if any(kw != kws[0] for kw in kws):
+                res.failures.append({"what": f"Arguments.from_call({func.__name__}): spellings {group} of one call give different arguments {kws}",
+                                     "input": {"function": func.__name__, "spellings": [[list(a), k] for a, k in group]}, "finding_key": "from_call:spelling"})
+    for backend in ("mem", "sqlite"):
+        with real_app(backend) as app:
+            from pynenc.conf.config_task import ConcurrencyControlType
+            for func, groups in spellings.items():
+                task = app.task(registration_concurrency=ConcurrencyControlType.ARGUMENTS)(func)
+                for group in groups:
+                    n += 1
+                    invs = [task(*a, **k) for a, k in group]
+                    call_ids = {inv.call.call_id for inv in invs}
+                    inv_ids = {inv.invocation_id for inv in invs}
+                    if len(call_ids) != 1 or len(inv_ids) != 1:
+                        res.failures.append({"what": f"{backend}: {func.__name__}: {len(group)} spellings of one call give {len(call_ids)} call identities and "
+                                                     f"{len(inv_ids)} REGISTERED invocations (registration_concurrency=ARGUMENTS)",
+                                             "input": {"function": func.__name__}, "finding_key": f"{backend}:spelling-identity"})
+    res.cases = n
+    res.distinct = n
+    res.samples = [{"function": "sp_f", "spellings": ["f(1)", "f(a=1)", "f(1, 0)", "f(1, b=0)"]}]
+    return res
+
+
 def leaf_store_contracts(reg: Registry):
     """The two real stores against the `_store` statement assumed by the base-class proofs: EVERY call writes (key, value) - there is no
     "already written" shortcut (another process may have purged the table in between)."""
@@ -418,7 +463,7 @@ def build(ctx: RunCtx) -> Prop:
         pid=PID, title="compute_args_id = sha256 of the encoding of ALL pairs in sorted-key order ('no_args' when empty); encoding step injective; "
                        "_generate_key content-addressed over the whole value; size routing; resolve(serialize(x)) = x over the abstract store with an LRU invariant",
         level="other", technique="contract-based deductive verification over SMT strings/sequences (AST->z3/cvc5) + bounded stand-ins for third-party serializers and call spellings",
-        registry=reg, verify=verify, lemmas=[injectivity_lemmas], bounded=[identity_and_round_trips],
+        registry=reg, verify=verify, lemmas=[injectivity_lemmas], bounded=[identity_and_round_trips, call_spellings],
         replayers={"*value-that-looks-like-a-reference*": replay_reserved_prefix},
         assumptions=["json.dumps(s, ensure_ascii=False) on strings: injective, and no quoted string is a proper prefix of another quoted string (assumed contract)",
                      "sha256 is a function of its input; equal digests are reported as 'equal inputs modulo a collision'",
